@@ -239,6 +239,10 @@ def evaluate_parallel_links(case):
 
 
 def evaluate(case):
+    if case.get("tree") in ("s:two_tmpfs", "s:cross_device"):
+        from . import c09
+        if not c09.can_mount():
+            return {"violations": [], "nontrivial": None, "outcome": "skipped_no_mount", "evaluations": 0}
     if case["kind"] == "parallel_links":
         return evaluate_parallel_links(case)
     if case["kind"] == "orders":
